@@ -653,6 +653,51 @@ func ruleStaleness(r *Run, rule string) {
 			}
 		}
 	}
+	// round-4 seed C11-8: the maximum is taken over EVERY walked object — the walk yields the plan's PostChecks and DeferredChecks
+	// after all the blocks, and a plan whose early block failed runs its deferred checks while later blocks are still
+	// NotStarted: a scan that stops at some object (break, return) judges a live plan by the age of its first blocks.
+	badScan := ""
+	var scanPos token.Pos = lu.Decl.Pos()
+	for i := range paths {
+		p := &paths[i]
+		if p.Exit != ExitReturn || badScan != "" {
+			continue
+		}
+		last := -1
+		for j, e := range p.Ev {
+			if e.Kind != EvRange {
+				continue
+			}
+			rs, isR := e.Clause.(*ast.RangeStmt)
+			if !isR {
+				continue
+			}
+			c, isC := ast.Unparen(rs.X).(*ast.CallExpr)
+			if !isC {
+				continue
+			}
+			if f, ok := calleeFunc(fl.Info, c); !ok || FuncKey(f) != "workflow/utils/walk.Plan" {
+				continue
+			}
+			if e.Taken {
+				last = j
+			} else {
+				last = -1
+			}
+		}
+		if last >= 0 {
+			g := ""
+			for x := last + 1; x < len(p.Ev); x++ {
+				if p.Ev[x].Kind == EvBranch && p.Ev[x].Cond != nil && p.Ev[x].Depth == 0 {
+					g = ExprStr(p.Ev[x].Cond)
+				}
+			}
+			badScan, scanPos = "lastUpdate leaves its loop over the walk before the last object (last test: "+g+"): what comes later in the walk — later blocks, the plan's post and deferred checks, their actions and attempts — is not looked at, a live plan is closed as stale", p.Ev[last].Pos
+		}
+	}
+	if walks {
+		r.Check(rule, "lastUpdate:scan-complete", scanPos, badScan == "", "%s", orOK(badScan, "the loop over the walk runs to its end on every path"))
+	}
 	if !walks && bad == "" {
 		bad = "lastUpdate does not range over walk.Plan(p): activity of sub-objects would be ignored and a live plan closed as stale"
 	}
